@@ -56,6 +56,10 @@ def vg_replay(chk, lines, why, scalar='double', leak=False, lang='c++', alt_line
     return replay
 
 
+def scalars_6c(chk):
+    return ('double',) if chk.tier == 'quick' else ('double', 'long double')
+
+
 def body(chk):
     w = chk.world()
     w.models.callback_hook = c15.callback_hook
@@ -243,6 +247,56 @@ def body(chk):
                     chk.paths_clean('vector<%s>:%s:%s:n=%d:no-memory-event' % (scalar, name, vname, n), bad, key='vector:%s' % name, family='vector-events',
                                     replay=vg_replay(chk, ['masa_init<Scalar>("a","%s"); std::vector<Scalar> a(%d,(Scalar)0.5), o; masa_set_vec<Scalar>("%s",a); masa_get_vec<Scalar>("%s",o);' % (name, n, vname, vname)],
                                                      'vector parameter of length %d' % n, scalar))
+    # ---- 6c. operations with a name the solution has NOT registered (a typo), followed by every observer of the store: the refused call
+    #          must leave nothing behind that a later display/sanity/get call reads through (e.g. an index-0 entry -> the constructor's dead local)
+    for scalar in scalars_6c(chk):
+        fs = 8 if scalar == 'double' else 16
+        fsv = S.api_fn(w, 'masa_set_vec', scalar, 'std::string, std::vector<%s>&' % scalar)
+        fgv = S.api_fn(w, 'masa_get_vec', scalar, 'std::string, std::vector<%s>&' % scalar)
+        fsp = S.api_fn(w, 'masa_set_param', scalar, 'std::string, %s' % scalar)
+        fgp = S.api_fn(w, 'masa_get_param', scalar, 'std::string')
+        obs = [S.api_fn(w, n_, scalar, '') for n_ in ('masa_display_vec', 'masa_display_param', 'masa_sanity_check', 'masa_purge_default_param', 'masa_init_param')]
+        for name in ('cp_normal', 'radiation_integrated_intensity', 'euler_1d'):
+            v = pde.RegView(chk, w, name, scalar)
+            for first in ('set_vec', 'get_vec', 'set_param', 'get_param'):
+                def thunk(ex, first=first):
+                    ex.call(obs[4], [])          # concrete default parameters (the symbolic ones of the view would fork every comparison in sanity_check)
+                    a = ex.st.new_region('alloca', 8, 'harness:vec')
+                    models.new_vec(ex, Ptr(a.rid, 0), fs, 2, lambda i: tm.sym('e%d' % i))
+                    if first == 'set_vec':
+                        ex.call(fsv, [S.new_string(ex, 'no_such_name'), Ptr(a.rid, 0)])
+                    elif first == 'get_vec':
+                        ex.call(fgv, [S.new_string(ex, 'no_such_name'), Ptr(a.rid, 0)])
+                    elif first == 'set_param':
+                        ex.call(fsp, [S.new_string(ex, 'no_such_name'), tm.sym('V')])
+                    else:
+                        ex.call(fgp, [S.new_string(ex, 'no_such_name')])
+                    for f_ in obs[:3]:
+                        ex.call(f_, [])
+                    o = ex.st.new_region('alloca', 8, 'harness:out')
+                    models.new_vec(ex, Ptr(o.rid, 0), fs)
+                    ex.call(fgv, [S.new_string(ex, 'no_such_name'), Ptr(o.rid, 0)])
+                    ex.call(fgp, [S.new_string(ex, 'no_such_name')])
+                    for f_ in obs[3:]:
+                        ex.call(f_, [])
+                    ex.call(obs[2], [])
+                    return None
+                try:
+                    paths = ex.explore(v.st, thunk, 32)
+                except UnwindBound as e_:
+                    chk.notes.append('unknown-name sequence on %s<%s> (%s first) not explored: %s' % (name, scalar, first, e_))
+                    continue
+                except ExecError as e_:
+                    paths = [dict(pc=[], error=str(e_), terminal=None, st=v.st)]
+                bad = [pc_term(p['pc']) for p in paths if (bad_events(p) or p['error'] is not None) and p['terminal'] is None]
+                call = {'set_vec': 'masa_set_vec<Scalar>("no_such_name",a);', 'get_vec': 'masa_get_vec<Scalar>("no_such_name",a);',
+                        'set_param': 'masa_set_param<Scalar>("no_such_name",(Scalar)1.5);', 'get_param': 'masa_get_param<Scalar>("no_such_name");'}[first]
+                chk.paths_clean('unknown-name<%s>:%s:%s-then-observers:no-memory-event' % (scalar, name, first), bad, key='unknown-name:%s:%s' % (name, first), family='vector-events',
+                                sample=dict(obligation='refused %s, then display/sanity/get/purge/init_param' % first, events=[str(bad_events(p)[:2])[:200] for p in paths if bad_events(p)][:2]),
+                                replay=vg_replay(chk, ['masa_init<Scalar>("a","%s"); std::vector<Scalar> a(2,(Scalar)0.5), o; %s' % (name, call),
+                                                       'masa_display_vec<Scalar>(); masa_display_param<Scalar>(); masa_sanity_check<Scalar>(); masa_get_vec<Scalar>("no_such_name",o); masa_get_param<Scalar>("no_such_name");',
+                                                       'masa_purge_default_param<Scalar>(); masa_init_param<Scalar>(); masa_sanity_check<Scalar>();'],
+                                                 'store operations after a refused %s' % first, scalar))
     # ---- 6b. vector solutions: every combination of vector lengths in {0,1,2} (symbolic contents), then every evaluator:
     #          a solution must either refuse (documented -1 / warning) or stay inside its vectors
     import itertools
